@@ -79,8 +79,10 @@ Inductive c06_case :=
 | KLinks (t : text) (ds : option text) (schemes : list text) (spans : list (nat * nat)) (o : list ora)
          (plain withtext : res (list (bool * text)))
 (* spec validation (not about boltons): urllib.parse.urlsplit(t) = (scheme, netloc, path, query, fragment),
-   '' for an absent part, compared with the Spec's Appendix-B split *)
-| KSplit (t : text) (sch au path q f : text).
+   '' for an absent part, compared with the Spec's Appendix-B split;
+   and urllib.parse.parse_qsl(query, keep_blank_values=True) = the pairs ('' for a missing value), compared with the
+   Spec's form reading of the query when it has no ';' (urllib splits on '&' only) *)
+| KSplit (t : text) (sch au path q f : text) (form : list (text * text)).
 
 (* ---- comparing the model with the implementation's observations ----------------------- *)
 Definition observe (T : tables) (u : url) : url_obs :=
@@ -200,11 +202,14 @@ Definition c06_verdict (c : c06_case) : verdict :=
      end,
      parse_ok (host_valid O r) t r f1 f2 m1 m2,
      false)
-  | KSplit t sch au path q f =>
+  | KSplit t sch au path q f form =>
     let '(s', a', p', q', f') := rfc_split t in
     (true,
      text_eqb (opt_text s') sch && text_eqb (opt_text a') au && text_eqb p' path &&
-     text_eqb (opt_text q') q && text_eqb (opt_text f') f,
+     text_eqb (opt_text q') q && text_eqb (opt_text f') f &&
+     (if memN 59 (opt_text q') then true
+      else list_eqb (fun x y => text_eqb (fst x) (fst y) && text_eqb (snd x) (snd y))
+                    (map (fun kv => (fst kv, opt_text (snd kv))) (form_pairs (opt_text q'))) form),
      false)
   | KLinks t ds schemes spans o plain withtext =>
     (* the regular expression is an oracle (its matches are [spans]); everything find_all_links does with the
@@ -248,7 +253,7 @@ Definition c06_explain (c : c06_case) :=
       do l <- r; MOk (flat_map (fun '(b, s) => (if (b : bool) then [85; 58] else [83; 58]) ++ s ++ [124]) l) in
     ([show (m_links O false ds schemes t spans); show (m_links O true ds schemes t spans);
       MOk (if match withtext with Ok w => fits w t | _ => false end then [1] else [0])], [])
-  | KSplit t sch au path q f =>
+  | KSplit t sch au path q f _ =>
     let '(s', a', p', q', f') := rfc_split t in
     ([MOk (opt_text s'); MOk (opt_text a'); MOk p'; MOk (opt_text q'); MOk (opt_text f')], [])
   end.
